@@ -222,6 +222,26 @@ func (x *exec) doRender(ev Ev) {
 	case "emu":
 		if x.s.emu != nil {
 			x.directRender("emulator-composite", x.s.emu.View(), ev.N)
+			// The register table declares a fixed height (what the
+			// composite's minimum adds to the listing's minimum and the
+			// separator line): it must write exactly that many lines.
+			if x.s.dis != nil && !x.stop {
+				v := x.s.emu.View()
+				declared := v.MinLines() - x.s.dis.View().MinLines() - 1
+				out, err, panicked, _, _ := captureRender(func() error { return v.Print(v.MinLines() + ev.N) })
+				if !panicked && err == nil && declared >= 0 {
+					got := 0
+					for _, l := range strings.Split(out, "\n") {
+						if _, isList := parseListRow(l); !isList && regRe.MatchString(l) {
+							got++
+						}
+					}
+					x.ctx.Probe("register_table_height_checked")
+					if got != declared {
+						x.fail("C24", "render-fixed", "render-fixed/register-table", "the register table declares %d lines but wrote %d (emulator view granted %d lines)", declared, got, v.MinLines()+ev.N)
+					}
+				}
+			}
 		}
 	case "mem":
 		mem := x.memoryShown()
